@@ -154,7 +154,7 @@ func cmdWorker(args []string) int {
 	// sample collection: keep traces for a few runs
 	var sampleRuns []uint64
 	for i := uint64(0); i < *runs; i++ {
-		if i%64 == 0 && time.Now().After(deadline) {
+		if time.Now().After(deadline) {
 			break
 		}
 		idx := *from + i**step
@@ -742,6 +742,9 @@ func sanitize(s string) string {
 	return out
 }
 
+// shrinkWall bounds the wall-clock time spent minimising one failure.
+var shrinkWall = 12 * time.Second
+
 // shrink minimises a choice list while pred keeps holding (Hypothesis-style
 // passes: delete blocks, zero blocks, lower single values).
 func shrink(choices []int, pred func([]int) (*runResult, bool), budget int) []int {
@@ -751,8 +754,10 @@ func shrink(choices []int, pred func([]int) (*runResult, bool), budget int) []in
 		cur = append([]int(nil), r.Choices...)
 	}
 	tries := 0
+	deadline := time.Now().Add(shrinkWall)
 	try := func(cand []int) bool {
-		if tries >= budget {
+		if tries >= budget || time.Now().After(deadline) {
+			tries = budget
 			return false
 		}
 		tries++
